@@ -45,6 +45,17 @@ func (s *ConnSniffer) Read(p []byte) (n int, err error) {
 	return s.Sniffer.Read(p)
 }
 
+var errCloseWriteUnsupported = errors.New("CloseWrite is not supported by the underlying connection")
+
+// CloseWrite forwards the half-close to the wrapped connection so that a relay can pass an
+// upstream EOF on to the client. Without it the wrapper hides the inner CloseWrite.
+func (s *ConnSniffer) CloseWrite() error {
+	if wc, ok := s.Conn.(interface{ CloseWrite() error }); ok {
+		return wc.CloseWrite()
+	}
+	return errCloseWriteUnsupported
+}
+
 func (s *ConnSniffer) CopyRelayRemainder(dst io.Writer, buf []byte) (int64, error) {
 	return copyDirect(dst, s.Conn, buf)
 }
